@@ -2113,7 +2113,7 @@ def _other_uniqueness_mechanism(idx, f):
             if isinstance(n, ast.Compare) and any(
                     isinstance(x, ast.Call) and isinstance(x.func, ast.Name) and x.func.id == "len" and len(x.args) == 1 and
                     isinstance(x.args[0], ast.Call) and isinstance(x.args[0].func, ast.Name) and x.args[0].func.id in ("set", "frozenset")
-                    for x in ast.walk(n)):
+                    for x in ast.walk(n)) and _guards_registration(g, n):
                 return f"a set-size comparison (`{ast.unparse(n)[:70]}`) in {g.qual}"
         if adds & tests:
             return f"a set of names taken so far (`{sorted(adds & tests)[0]}`) in {g.qual}"
